@@ -18,6 +18,9 @@ Record case := mkcase {
   c_bugs : list bugobs;
   c_stuck : bool;              (* the watchdog fired: some goroutine never finished *)
   c_coherent : bool;           (* live cache = cache rebuilt from git (excerpts, snapshots, queries) *)
+  c_stale : list nat;          (* once the goroutines are done, before the flush: the bugs whose excerpt in the cache is not
+                                  the excerpt of the entity the cache hands out (staged operations included), or whose texts
+                                  in the full-text index are not those of that entity (both are written by entityUpdated) *)
   c_fatal : nat }.             (* part C18r: unsynchronised accesses to a Go map reported by the race detector: each is a
                                   'fatal error: concurrent map read and map write' (process crash) under the wrong timing *)
 
@@ -49,6 +52,8 @@ Definition C18_allowed (c : case) : bool :=
   forallb (fun x => negb (Nat.leb (bo_id x) (c_shared c)) || prefixb [[1000 + bo_id x]] (bo_packs x)) (c_bugs c) &&
   (c_stuck c || classes_ok (results_of c)) &&
   (negb (c_stuck c) || negb (Nat.eqb (c_evict c) 0)) &&
+  (* C18_excerpts_fresh: an excerpt is stale only for a bug about which a call failed in entityUpdated / add *)
+  forallb (fun b => existsb (fun x => Nat.eqb (co_bug x) b && missedb (res_of x)) (c_calls c)) (c_stale c) &&
   Nat.eqb (c_fatal c) 0.
 
 Fixpoint index_filter {A} (ok : A -> bool) (i : nat) (l : list A) : list nat :=
@@ -66,6 +71,7 @@ Definition C18_ok (c : case) : bool :=
                     forallb (fun o => memn o (issued c (bo_id x))) (concat (bo_packs x)))   (* containing only what was issued *)
           (c_bugs c) &&
   c_coherent c &&                                                                 (* the cache agrees with a rebuild *)
+  is_nil (c_stale c) &&                                                           (* ... and with its own entities, before anything else touches it *)
   Nat.eqb (c_fatal c) 0.                                                          (* no call can crash the process *)
 
 Definition failing (cs : list case) : list nat := index_filter C18_ok 0 cs.
